@@ -7,15 +7,19 @@ From QV Require Import Lib.Corr Sys.Trace.
 Import ListNotations.
 Open Scope Z_scope.
 
-Record st := { lastp : list (key * list Z); resp : list Z (* endpoints that sent a stateless response *);
+Record st := { lastp : list (key * list Z); resp : list key (* (endpoint that sent a stateless response, pair index of the datagram that provoked it) *);
                connected : list key; born : list key (* one entry per incarnation *);
                closed : list key (* close() called locally *);
-               genuine : list key (* received an intact genuine datagram *); lossy : bool }.
+               genuine : list key (* received an intact genuine datagram *); lossy : bool ; restarted : bool (* the server process restarted (WORLD 13/11) *);
+               gone : list key (* connections whose endpoint has forgotten them (Drained) *);
+               rotating : bool (* CID_LIFETIME_MS > 0: issued CIDs are retired and stop routing *) }.
 
 (** frames of kind [j] (stats index of tx; rx is j+1) *)
 Definition le_tx (rxp txp : list Z) (j : nat) : bool := sf rxp (j + 1) <=? sf txp j.
 
-Definition incarnations (s : st) (k : key) : nat := length (filter (key_eqb k) (born s)).
+(** later incarnations of a pair (opened by a replayed or delayed Initial) carry index + 1000 * n *)
+Definition incarnations (s : st) (k : key) : nat :=
+  length (filter (fun b => (fst b =? fst k) && ((snd b) mod 1000 =? (snd k) mod 1000)) (born s)).
 
 (** compared only where both sides had a single incarnation (a replayed Initial may open a
     second, unrelated attempt under the same pair index) *)
@@ -30,38 +34,55 @@ Definition final_ok (s : st) : bool :=
     end) (lastp s).
 
 Definition step (s : st) (r : list Z) : option st :=
-  if tag r =? 8 then Some {| lastp := aset (lastp s) (rkey r) r; resp := resp s; connected := connected s; born := born s; closed := closed s; genuine := genuine s; lossy := lossy s |}
+  if tag r =? 8 then Some {| lastp := aset (lastp s) (rkey r) r; resp := resp s; connected := connected s; born := born s; closed := closed s; genuine := genuine s; lossy := lossy s; restarted := restarted s; gone := gone s; rotating := rotating s |}
   else if tag r =? 2 then
     (* routing: a datagram produced by connection [origin] is handed to that connection only *)
     let out := fld r 5 in
     let origin := fld r 8 in
     (* a replayed Initial whose connection is gone legitimately opens a fresh attempt
        (index 255: no pair identity); genuine and in-flight duplicates must reach their owner *)
-    let fresh_attempt := (out =? 2) && ((fld r 9 =? 5) || (fld r 9 =? 6)) in
+    (* ... and so does any Initial that reaches a server process that has restarted *)
+    (* ... or a late duplicate whose owner the endpoint has meanwhile forgotten (Drained) *)
+    let fresh_attempt := (out =? 2) && ((fld r 9 =? 5) || (fld r 9 =? 6) || restarted s
+                                        || existsb (key_eqb (rep r, origin)) (gone s)
+                                        (* ... or a delayed duplicate addressed to a CID that has been retired by rotation *)
+                                        || ((fld r 9 =? 2) && rotating s)) in
     (* a corrupted datagram (pkind 3) may carry a damaged CID and reach another connection, which
        then fails to authenticate it: only intact copies are judged *)
     if ((out =? 1) || (out =? 2)) && (0 <=? origin) && negb (fld r 9 =? 3)
        && negb ((fld r 6) mod 1000 =? origin mod 1000) && negb fresh_attempt then None
-    else if out =? 3 then Some {| lastp := lastp s; resp := rep r :: resp s; connected := connected s; born := born s; closed := closed s; genuine := genuine s; lossy := lossy s |}
+    else if out =? 3 then Some {| lastp := lastp s; resp := (rep r, origin mod 1000) :: resp s; connected := connected s; born := born s; closed := closed s; genuine := genuine s; lossy := lossy s; restarted := restarted s; gone := gone s; rotating := rotating s |}
     else if (out =? 1) && ((fld r 9 =? 0) || (fld r 9 =? 2)) then
       Some {| lastp := lastp s; resp := resp s; connected := connected s; born := born s; closed := closed s;
-              genuine := (rep r, fld r 6) :: genuine s; lossy := lossy s |}
+              genuine := (rep r, fld r 6) :: genuine s; lossy := lossy s; restarted := restarted s; gone := gone s; rotating := rotating s |}
     else Some s
   else if (tag r =? 3) && ((fld r 4 =? 20) || (fld r 4 =? 21)) then
     (* a new incarnation under this pair index has not connected yet *)
     Some {| lastp := lastp s; resp := resp s;
             connected := filter (fun k => negb (key_eqb k (rkey r))) (connected s);
-            born := rkey r :: born s; closed := closed s; genuine := genuine s; lossy := lossy s |}
+            born := rkey r :: born s; closed := closed s; genuine := genuine s; lossy := lossy s; restarted := restarted s; gone := gone s; rotating := rotating s |}
   else if (tag r =? 3) && (fld r 4 =? 11) then
     Some {| lastp := lastp s; resp := resp s; connected := connected s; born := born s;
-            closed := rkey r :: closed s; genuine := genuine s; lossy := lossy s |}
+            closed := rkey r :: closed s; genuine := genuine s; lossy := lossy s; restarted := restarted s; gone := gone s; rotating := rotating s |}
+  else if (tag r =? 13) && (fld r 2 =? 11) then
+    Some {| lastp := lastp s; resp := resp s; connected := connected s; born := born s; closed := closed s;
+            genuine := genuine s; lossy := lossy s; restarted := true; gone := gone s; rotating := rotating s |}
+  else if (tag r =? 5) && (fld r 4 =? 1) then
+    Some {| lastp := lastp s; resp := resp s; connected := connected s; born := born s; closed := closed s;
+            genuine := genuine s; lossy := lossy s; restarted := restarted s; gone := rkey r :: gone s; rotating := rotating s |}
   else if tag r =? 11 then None
   else if tag r =? 4 then
     if (fld r 4 =? 3) && (ridx r <? 255) then
       (* no transport error, no version mismatch caused by the attacker; a reset only if the peer
          endpoint really issued a stateless reset (it had forgotten the connection) *)
       if (fld r 5 =? 4) && ((fld r 6 =? 42) || (fld r 6 =? 43) || (fld r 6 =? 41)) then Some s
-      else if (fld r 5 =? 5) && existsb (Z.eqb (1 - rep r)) (resp s) then Some s
+      (* ... and had indeed forgotten THIS connection: its side of the pair existed (reset tokens are only ever
+         learnt from a live peer) and is now drained or was lost in a restart (a reset provoked by ANOTHER connection's datagram carries the
+         token of that connection's CID and must not end this one) *)
+      else if (fld r 5 =? 5) && existsb (fun p => fst p =? 1 - rep r) (resp s)
+              && (let pk := (1 - rep r, ridx r) in
+                  existsb (key_eqb pk) (born s)
+                  && (existsb (key_eqb pk) (gone s) || (restarted s && (rep r =? 0)))) then Some s
       else if (fld r 5 =? 3) && (fld r 6 =? 12) && existsb (key_eqb (1 - rep r, ridx r)) (closed s) then Some s
       (* the peer closed but its close packet was lost or corrupted: timing out is all that is left *)
       else if (fld r 5 =? 6) && existsb (key_eqb (1 - rep r, ridx r)) (closed s) then Some s
@@ -69,14 +90,18 @@ Definition step (s : st) (r : list Z) : option st :=
       else if (fld r 5 =? 1) && (rep r =? 0) && negb (existsb (key_eqb (rkey r)) (genuine s)) then Some s
       (* heavy corruption or loss on the path is a denial of service by loss, not a forgery *)
       else if (fld r 5 =? 6) && lossy s then Some s
+      (* the server process restarted: what it cannot answer with a stateless reset (long-header
+         packets of an unfinished handshake) simply times out *)
+      else if (fld r 5 =? 6) && restarted s then Some s
       (* a replayed Initial opens a fresh attempt that can only time out *)
       else if (fld r 5 =? 6) && negb (existsb (key_eqb (rkey r)) (connected s)) then Some s
       else None
-    else if fld r 4 =? 2 then Some {| lastp := lastp s; resp := resp s; connected := rkey r :: connected s; born := born s; closed := closed s; genuine := genuine s; lossy := lossy s |}
+    else if fld r 4 =? 2 then Some {| lastp := lastp s; resp := resp s; connected := rkey r :: connected s; born := born s; closed := closed s; genuine := genuine s; lossy := lossy s; restarted := restarted s; gone := gone s; rotating := rotating s |}
     else Some s
   else if tag r =? 10 then
-    if final_ok s then Some s else None
+    (* after a restart the counters of the forgotten server connections are frozen: no comparison *)
+    if restarted s || final_ok s then Some s else None
   else Some s.
 
 Definition monitor (i : ops) (o : outs) : option Z :=
-  snd (run_from step 0 {| lastp := []; resp := []; connected := []; born := []; closed := []; genuine := []; lossy := (100 <=? param i 6 0) || (100 <=? param i 2 0) |} o).
+  snd (run_from step 0 {| lastp := []; resp := []; connected := []; born := []; closed := []; genuine := []; lossy := (100 <=? param i 6 0) || (100 <=? param i 2 0); restarted := false; gone := []; rotating := 0 <? param i 57 0 |} o).
